@@ -255,11 +255,37 @@ func (r *reader) GetByTime(ts int64, tctx int64) (message.Message, error) {
 }
 
 func (r *reader) Stat() (segment.Stats, error) {
+	if err := r.ensureIndexFile(); err != nil {
+		return segment.Stats{}, err
+	}
 	return r.segment.Stat(r.params)
 }
 
 func (r *reader) Backup(dir string) error {
+	if err := r.ensureIndexFile(); err != nil {
+		return err
+	}
 	return r.segment.Backup(dir)
+}
+
+// ensureIndexFile rebuilds the index file if it is missing, e.g. it was
+// removed while the log was closed and this segment was not accessed since
+func (r *reader) ensureIndexFile() error {
+	r.indexMu.RLock()
+	loaded := r.index != nil
+	r.indexMu.RUnlock()
+	if loaded {
+		return nil
+	}
+
+	switch reindex, err := r.segment.NeedsReindex(); {
+	case err != nil:
+		return err
+	case reindex:
+		_, err := r.getIndexMarked()
+		return err
+	}
+	return nil
 }
 
 func (r *reader) Delete(rs *segment.RewriteSegment) (*reader, error) {
